@@ -161,6 +161,15 @@ theorem step_inv_valid (s : St) (op : Op) (hinv : Inv_valid s)
         · exact hinv.offsets q hq
         · simp at hq
       case crash => simp [step, crash] at hq
+      case rebalance lo hi =>
+        -- positions are loaded again from the (valid) store
+        simp only [step] at hq
+        rcases rebalanceSession_cases s lo hi with ⟨_, e⟩ | ⟨_, _, _, _, e⟩ | ⟨offs, dirty, any, _, _, _, hl, e⟩ <;>
+          rw [e] at hq
+        · exact hinv.offsets q hq
+        · simp [rebalBase, closedOf] at hq
+        · rw [rebalDone_offsets] at hq
+          exact load_valid (s := rebalBase s lo hi) hinv.store hl q hq
   · -- contexts
     intro p hp
     rcases step_ctxs_cases s op with h | ⟨i, vb, d, off, coll, t, hout, hc⟩
@@ -204,14 +213,17 @@ def obsvValid : Obsv → Prop
   | .pos offs _ _ => ∀ q ∈ offs, q.2.valid
   | _ => True
 
-/-- every stream request, delivery, `TrackOffset` call, `Metadata.Save` argument, durable write and
+/-- every stream request (of an open, a rebalance or a reopen), delivery, `TrackOffset` call, `Metadata.Save` argument, durable write and
     `GetOffsets` answer of a step from an `Inv_valid` state carries only valid offsets / documents -/
 theorem step_out_valid (s : St) (op : Op) (hinv : Inv_valid s) : ∀ x ∈ (step s op).2, obsvValid x := by
   intro x hx
   cases x <;> simp only [obsvValid] <;> try trivial
   case openreq vb o =>
-    obtain ⟨⟨offs, dirty, any, _, hl, hm⟩, _⟩ := step_openreq hx
-    exact load_valid (s := openBase s) hinv.store hl _ hm
+    rcases (step_openreq hx).1 with ⟨offs, dirty, any, _, _, hl, hm⟩ | ⟨lo, hi, offs, dirty, any, _, _, _, _, hl, hm, _⟩ |
+        ⟨_, _, hg⟩
+    · exact load_valid (s := openBase s) hinv.store hl _ hm
+    · exact load_valid (s := rebalBase s lo hi) hinv.store hl _ hm
+    · exact hinv.offsets _ (AMap.mem_of_get?_eq_some hg)
   case deliver i vb d off coll t =>
     obtain ⟨o, _, _, hoff, hin, _⟩ := step_deliver hx
     rw [hoff]; exact mkOffset_valid hin
@@ -239,7 +251,11 @@ theorem step_out_valid (s : St) (op : Op) (hinv : Inv_valid s) : ∀ x ∈ (step
     case getOffsets => simp at hx; obtain ⟨rfl, _, _⟩ := hx; exact hinv.offsets
     case setStore => split at hx <;> simp at hx
     case setHigh => simp at hx
-    case setFlog => split at hx <;> simp at hx
+    case setFlog => simp at hx
+    case rebalance lo hi =>
+      rcases mem_rebalanceSession_out hx with ⟨_, h⟩ | ⟨_, h⟩ | h | ⟨_, _, _, _, _, _, _, _, _, _, h, _⟩ <;> cases h
+    case reopen vb =>
+      rcases mem_reopenStream_out hx with ⟨_, h⟩ | ⟨_, _, _, _, _, h, _⟩ <;> cases h
     case «open» =>
       simp only [openSession] at hx
       split at hx
@@ -359,14 +375,42 @@ theorem outside_snapshot_failstop (s : St) (vb : Vb) (o : Obs) (e : SrvEv) (seq 
   · obtain ⟨h1, h2, h3, h4, _⟩ := outside_snapshot_failstop_sys s vb o k seq coll ho hg hc hin
     refine ⟨h1, ?_, ?_, h2, h3, h4⟩ <;> (intros; rw [h1]; simp)
 
-/-! ### the branch id -/
+/-! ### the branch id
 
-/-- while the stream is open every observer's branch id is the head of the failover log the
-    accepting stream request returned -/
-def Inv_uuid (s : St) : Prop :=
-  s.isOpen = true → ∀ vb o, s.observers.get? vb = some o → o.uuid = (s.flog.get? vb).getD 0
+A failover may happen while the stream is open (`.setFlog` is accepted in every state), so "every
+observer's branch id is the head of the failover log" can be false between a `.setFlog` and the
+next stream request of that vBucket (`inv_uuid_now_refuted`). What holds in every reachable state
+is: the branch id is the head **that answered the last accepted stream request** of the vBucket.
+Those heads are carried as a ghost function `acc` (`accStep`): an observer's branch id is set by
+`open`, by a rebalance and by a reopen only, each time to the then-current head, and is changed by
+nothing else (`step_obs_uuid`). -/
 
-theorem inv_uuid_init (c : Cfg) : Inv_uuid { cfg := c } := by intro h; cases h
+/-- the head of a vBucket's failover log as the server has it now -/
+def flogHead (s : St) (vb : Vb) : Nat := (s.flog.get? vb).getD 0
+
+/-- ghost: the failover-log head that answered the last accepted stream request of each vBucket.
+    `open` (on a closed stream) and an accepted rebalance request every assigned vBucket, an accepted
+    reopen requests one; a refused op requests nothing -/
+def accStep (s : St) (acc : Vb → Nat) : Op → Vb → Nat
+  | .open => if s.isOpen then acc else flogHead s
+  | .rebalance lo hi => if s.isOpen = true ∧ s.savers = [] ∧ lo ≤ hi then flogHead s else acc
+  | .reopen vb =>
+    if s.isOpen = true ∧ (s.offsets.get? vb).isSome = true ∧ (s.observers.get? vb).isSome = true then
+      fun v => if v = vb then flogHead s vb else acc v
+    else acc
+  | _ => acc
+
+/-- the ghost along a run -/
+def accRun (s : St) (acc : Vb → Nat) : List Op → Vb → Nat
+  | [] => acc
+  | op :: r => accRun (step s op).1 (accStep s acc op) r
+
+/-- while the stream is open every observer's branch id is the head of the failover log that the
+    last accepted stream request of its vBucket returned -/
+def Inv_uuid (s : St) (acc : Vb → Nat) : Prop :=
+  s.isOpen = true → ∀ vb o, s.observers.get? vb = some o → o.uuid = acc vb
+
+theorem inv_uuid_init (c : Cfg) (acc : Vb → Nat) : Inv_uuid { cfg := c } acc := by intro h; cases h
 
 /-- right after a successful `open` -/
 theorem uuid_is_branch_open (s : St) (h0 : s.isOpen = false) (h : (openSession s).1.isOpen = true) (vb : Vb) (o : Obs)
@@ -382,13 +426,39 @@ theorem uuid_is_branch_open (s : St) (h0 : s.isOpen = false) (h : (openSession s
     | none => simp [hg] at ho
     | some p => simp [hg] at ho; rw [← ho]; rfl
 
-/-- observers' branch ids are not changed by any in-session op -/
-theorem step_obs_uuid (s : St) (op : Op) (hin : inSession op = true) (vb : Vb) (o' : Obs)
+/-- right after a successful rebalance: every observer is new and carries the current head -/
+theorem uuid_is_branch_rebalance (s : St) (lo hi : Vb) (offs : AMap Offset) (dirty : List Vb) (any : Bool) (vb : Vb)
+    (o : Obs) (ho : (rebalDone s lo hi offs dirty any).observers.get? vb = some o) : o.uuid = flogHead s vb := by
+  rw [rebalDone_observers, AMap.get?_mapVal (fun v p => initObs s v p)] at ho
+  cases hg : offs.get? vb with
+  | none => simp [hg] at ho
+  | some p => simp [hg] at ho; rw [← ho]; rfl
+
+/-- ops that answer stream requests: only these set an observer's branch id -/
+def setsUuid : Op → Bool
+  | .open | .rebalance _ _ | .reopen _ => true
+  | _ => false
+
+/-- observers' branch ids are changed by nothing but `open`, a rebalance and a reopen (in particular
+    not by a failover `.setFlog` while streaming, nor by `close`) -/
+theorem step_obs_uuid (s : St) (op : Op) (hin : setsUuid op = false) (vb : Vb) (o' : Obs)
     (h : (step s op).1.observers.get? vb = some o') :
     ∃ o, s.observers.get? vb = some o ∧ o'.uuid = o.uuid := by
   by_cases ht : op.touchesObservers = false
   · rw [step_observers s ht] at h; exact ⟨o', h, rfl⟩
-  · cases op <;> simp [Op.touchesObservers] at ht <;> simp [inSession] at hin
+  · cases op <;> simp [Op.touchesObservers] at ht <;> simp [setsUuid] at hin
+    case close =>
+      simp only [step, closeSession] at h
+      split at h
+      · exact ⟨o', h, rfl⟩
+      · have hm : AMap.get? (s.observers.map fun p => (p.1, p.2.close.closeEnd)) vb =
+            (s.observers.get? vb).map (fun o => o.close.closeEnd) :=
+          AMap.get?_mapVal (fun _ (o : Obs) => o.close.closeEnd) s.observers vb
+        rw [hm] at h
+        cases hg : s.observers.get? vb with
+        | none => simp [hg] at h
+        | some ob => simp [hg] at h; exact ⟨ob, rfl, by rw [← h]; rfl⟩
+    case crash => simp [step, crash] at h
     case ev v e =>
       simp only [step] at h
       cases ho : s.observers.get? v with
@@ -415,66 +485,169 @@ theorem step_obs_uuid (s : St) (op : Op) (hin : inSession op = true) (vb : Vb) (
             unfold Obs.setPersist; split <;> rfl
           · simp [hv] at h; exact ⟨o', h, rfl⟩
 
-/-- **`Inv_uuid` is preserved by every op** -/
-theorem step_inv_uuid (s : St) (op : Op) (hinv : Inv_uuid s) : Inv_uuid (step s op).1 := by
+/-- a reopen that is accepted sets the branch id of that one observer to the current head and leaves
+    the others alone; a refused one changes nothing -/
+theorem reopenStream_accept {s : St} {vb : Vb}
+    (hc : s.isOpen = true ∧ (s.offsets.get? vb).isSome = true ∧ (s.observers.get? vb).isSome = true) :
+    ∃ o ob, s.offsets.get? vb = some o ∧ s.observers.get? vb = some ob ∧
+      reopenStream s vb = ({ s with observers := s.observers.set vb (ob.setUuid (flogHead s vb)) }, [.openreq vb o]) := by
+  obtain ⟨h1, h2, h3⟩ := hc
+  obtain ⟨o, ho⟩ := Option.isSome_iff_exists.1 h2
+  obtain ⟨ob, hob⟩ := Option.isSome_iff_exists.1 h3
+  exact ⟨o, ob, ho, hob, by simp [reopenStream, h1, ho, hob, flogHead]⟩
+
+theorem reopenStream_refuse {s : St} {vb : Vb}
+    (hc : ¬ (s.isOpen = true ∧ (s.offsets.get? vb).isSome = true ∧ (s.observers.get? vb).isSome = true)) :
+    (reopenStream s vb).1 = s := by
+  rcases reopenStream_cases s vb with ⟨_, e⟩ | ⟨o, ob, h1, h2, h3, _⟩
+  · rw [e]
+  · exact absurd ⟨h1, by simp [h2], by simp [h3]⟩ hc
+
+theorem rebalanceSession_refuse {s : St} {lo hi : Vb} (hc : ¬ (s.isOpen = true ∧ s.savers = [] ∧ lo ≤ hi)) :
+    (rebalanceSession s lo hi).1 = s := by
+  rcases rebalanceSession_cases s lo hi with ⟨_, e⟩ | ⟨h1, h2, h3, _⟩ | ⟨_, _, _, h1, h2, h3, _⟩
+  · rw [e]
+  · exact absurd ⟨h1, h2, h3⟩ hc
+  · exact absurd ⟨h1, h2, h3⟩ hc
+
+/-- **`Inv_uuid` is preserved by every op**, the ghost moving by `accStep` -/
+theorem step_inv_uuid (s : St) (op : Op) (acc : Vb → Nat) (hinv : Inv_uuid s acc) :
+    Inv_uuid (step s op).1 (accStep s acc op) := by
   intro hopen vb o' ho'
-  by_cases hin : inSession op = true
-  · rw [step_flog_of_inSession s hin]
-    rw [step_isOpen_of_inSession s hin] at hopen
-    obtain ⟨o, ho, hu⟩ := step_obs_uuid s op hin vb o' ho'
-    rw [hu]; exact hinv hopen vb o ho
-  · cases op <;> simp [inSession] at hin
-    case setStore v d =>
-      simp only [step] at hopen ho' ⊢
-      split at hopen
-      · rename_i h0; simp only [h0, if_true] at ho' ⊢; exact hinv h0 vb o' ho'
-      · rename_i h0; simp at hopen; exact absurd hopen h0
-    case setFlog v u =>
-      simp only [step] at hopen ho' ⊢
-      split at hopen
-      · rename_i h0; simp only [h0, if_true] at ho' ⊢; exact hinv h0 vb o' ho'
-      · rename_i h0; simp at hopen; exact absurd hopen h0
+  by_cases hset : setsUuid op = false
+  · have hacc : accStep s acc op = acc := by cases op <;> simp [setsUuid] at hset <;> rfl
+    rw [hacc]
+    obtain ⟨o, ho, hu⟩ := step_obs_uuid s op hset vb o' ho'
+    rw [hu]
+    refine hinv ?_ vb o ho
+    by_cases hto : op.touchesIsOpen = false
+    · rw [step_isOpen s hto] at hopen; exact hopen
+    · cases op <;> simp [Op.touchesIsOpen] at hto <;> simp [setsUuid] at hset
+      case close =>
+        simp only [step, closeSession] at hopen
+        split at hopen
+        · exact hopen
+        · simp at hopen
+      case crash => simp [step, crash] at hopen
+  · cases op <;> simp [setsUuid] at hset
     case «open» =>
-      simp only [step] at hopen ho' ⊢
+      simp only [step, accStep] at hopen ho' ⊢
       by_cases h0 : s.isOpen = true
-      · rw [openSession_of_isOpen h0] at ho' ⊢; exact hinv h0 vb o' ho'
+      · rw [openSession_of_isOpen h0] at ho'; simp only [h0, if_true]; exact hinv h0 vb o' ho'
       · have h0 : s.isOpen = false := by simpa using h0
-        rw [openSession_flog]
+        simp only [h0, Bool.false_eq_true, if_false]
         exact uuid_is_branch_open s h0 hopen vb o' ho'
-    case close =>
-      simp only [step, closeSession] at hopen
-      split at hopen
-      · rename_i h0; simp at h0; rw [h0] at hopen; cases hopen
-      · simp at hopen
-    case crash => simp [step, crash] at hopen
+    case rebalance lo hi =>
+      simp only [step, accStep] at hopen ho' ⊢
+      by_cases hc : s.isOpen = true ∧ s.savers = [] ∧ lo ≤ hi
+      · rw [if_pos hc]
+        rcases rebalanceSession_cases s lo hi with ⟨_, e⟩ | ⟨_, _, _, _, e⟩ | ⟨offs, dirty, any, _, _, _, _, e⟩
+        · obtain ⟨h1, h2, h3⟩ := hc
+          cases hl : load (rebalBase s lo hi) with
+          | none => rw [rebalanceSession_of_load_none h1 h2 h3 hl] at hopen; simp [rebalBase, closedOf] at hopen
+          | some r =>
+            obtain ⟨offs, dirty, any⟩ := r
+            rw [rebalanceSession_of_load_some h1 h2 h3 hl] at ho'
+            exact uuid_is_branch_rebalance s lo hi offs dirty any vb o' ho'
+        · rw [e] at hopen; simp [rebalBase, closedOf] at hopen
+        · rw [e] at ho'; exact uuid_is_branch_rebalance s lo hi offs dirty any vb o' ho'
+      · rw [if_neg hc]
+        rw [rebalanceSession_refuse hc] at hopen ho'
+        exact hinv hopen vb o' ho'
+    case reopen v =>
+      simp only [step, accStep] at hopen ho' ⊢
+      by_cases hc : s.isOpen = true ∧ (s.offsets.get? v).isSome = true ∧ (s.observers.get? v).isSome = true
+      · rw [if_pos hc]
+        obtain ⟨o, ob, _, hob, e⟩ := reopenStream_accept hc
+        rw [e] at ho'
+        simp only [] at ho'
+        rw [AMap.get?_set] at ho'
+        by_cases hv : vb = v
+        · subst hv; simp at ho'; subst ho'; simp [Obs.setUuid]
+        · simp only [hv, if_false] at ho' ⊢
+          exact hinv hc.1 vb o' ho'
+      · rw [if_neg hc]
+        rw [reopenStream_refuse hc] at hopen ho'
+        exact hinv hopen vb o' ho'
 
-/-- **uuid_is_branch**: after a successful `open`, through any in-session ops, every observer of the
-    open stream still carries the failover-log head that `open` was answered with -/
-theorem uuid_is_branch (s : St) (h0 : s.isOpen = false) (h : (openSession s).1.isOpen = true) (ops : List Op)
-    (hin : ∀ op ∈ ops, inSession op = true) (vb : Vb) (o : Obs)
-    (ho : (run (openSession s).1 ops).observers.get? vb = some o) : o.uuid = (s.flog.get? vb).getD 0 := by
-  have key : ∀ (l : List Op) (s1 : St), (∀ op ∈ l, inSession op = true) →
-      (∀ v ob, s1.observers.get? v = some ob → ob.uuid = (s.flog.get? v).getD 0) →
-      ∀ v ob, (run s1 l).observers.get? v = some ob → ob.uuid = (s.flog.get? v).getD 0 := by
-    intro l
-    induction l with
-    | nil => intro s1 _ h1; exact h1
-    | cons op r ih =>
-      intro s1 hl h1
-      rw [run_cons]
-      apply ih _ (fun o ho => hl o (List.mem_cons_of_mem _ ho))
-      intro v ob hob
-      obtain ⟨ob0, h2, h3⟩ := step_obs_uuid s1 op (hl op List.mem_cons_self) v ob hob
-      rw [h3]; exact h1 v ob0 h2
-  exact key ops _ hin (fun v ob hob => uuid_is_branch_open s h0 h v ob hob) vb o ho
+theorem run_inv_uuid (s : St) (ops : List Op) (acc : Vb → Nat) (hinv : Inv_uuid s acc) :
+    Inv_uuid (run s ops) (accRun s acc ops) := by
+  induction ops generalizing s acc with
+  | nil => exact hinv
+  | cons op r ih => rw [run_cons]; exact ih _ _ (step_inv_uuid s op acc hinv)
 
-/-- the offsets handed out carry that branch id: a delivery's `uuid` is the failover-log head -/
-theorem deliver_uuid_is_branch (s : St) (hinv : Inv_uuid s) (hopen : s.isOpen = true) (op : Op) (i : Nat) (vb : Vb)
-    (d : DocEv) (off : Offset) (coll : String) (t : Nat) (h : Obsv.deliver i vb d off coll t ∈ (step s op).2) :
-    off.uuid = (s.flog.get? vb).getD 0 := by
+/-- the offsets handed out carry that branch id: a delivery's `uuid` is the failover-log head that
+    answered the last accepted stream request of its vBucket -/
+theorem deliver_uuid_is_branch (s : St) (acc : Vb → Nat) (hinv : Inv_uuid s acc) (hopen : s.isOpen = true) (op : Op)
+    (i : Nat) (vb : Vb) (d : DocEv) (off : Offset) (coll : String) (t : Nat)
+    (h : Obsv.deliver i vb d off coll t ∈ (step s op).2) :
+    off.uuid = acc vb := by
   obtain ⟨o, _, ho, hoff, _⟩ := step_deliver h
   rw [hoff, Obs.mkOffset_uuid]; exact hinv hopen vb o ho
 
+/-! #### the earlier form: "the branch id is the CURRENT head" -/
+
+/-- every observer of the open stream carries the current head of its failover log -/
+def Inv_uuid_now (s : St) : Prop := Inv_uuid s (flogHead s)
+
+/-- as long as the ghost is the current head, it stays the current head through every op that is
+    not a failover -/
+theorem accStep_flogHead (s : St) (op : Op) (hf : op.touchesFlog = false) :
+    accStep s (flogHead s) op = flogHead (step s op).1 := by
+  have e : flogHead (step s op).1 = flogHead s := by funext v; simp only [flogHead, step_flog s hf]
+  rw [e]
+  cases op <;> simp only [accStep] <;> try rfl
+  case «open» => split <;> rfl
+  case rebalance lo hi => split <;> rfl
+  case reopen vb =>
+    split
+    · funext v; by_cases hv : v = vb
+      · subst hv; simp
+      · simp [hv]
+    · rfl
+
+/-- **the earlier invariant holds with the minimal extra hypothesis**: it is preserved by every op
+    except a failover (`.setFlog`) that happens while the stream is open -/
+theorem step_inv_uuid_now (s : St) (op : Op) (hinv : Inv_uuid_now s)
+    (hf : ∀ v u, op = .setFlog v u → s.isOpen = false) : Inv_uuid_now (step s op).1 := by
+  by_cases ht : op.touchesFlog = false
+  · have := step_inv_uuid s op (flogHead s) hinv
+    rw [accStep_flogHead s op ht] at this
+    exact this
+  · cases op <;> simp [Op.touchesFlog] at ht
+    rename_i v u
+    intro hopen
+    have h0 := hf v u rfl
+    simp only [step] at hopen
+    rw [h0] at hopen; cases hopen
+
+/-- **uuid_is_branch**: after a successful `open`, through any in-session ops (reopens included: no
+    failover is among them), every observer of the open stream still carries the failover-log head
+    that `open` was answered with -/
+theorem uuid_is_branch (s : St) (h0 : s.isOpen = false) (h : (openSession s).1.isOpen = true) (ops : List Op)
+    (hin : ∀ op ∈ ops, inSession op = true) (vb : Vb) (o : Obs)
+    (ho : (run (openSession s).1 ops).observers.get? vb = some o) : o.uuid = (s.flog.get? vb).getD 0 := by
+  have hnow : Inv_uuid_now (openSession s).1 := by
+    intro _ v ob hob
+    rw [flogHead, openSession_flog]
+    exact uuid_is_branch_open s h0 h v ob hob
+  have key : ∀ (l : List Op) (s1 : St), (∀ op ∈ l, inSession op = true) → s1.isOpen = true → Inv_uuid_now s1 →
+      Inv_uuid_now (run s1 l) ∧ (run s1 l).isOpen = true ∧ (run s1 l).flog = s1.flog := by
+    intro l
+    induction l with
+    | nil => intro s1 _ h1 h2; exact ⟨h2, h1, rfl⟩
+    | cons op r ih =>
+      intro s1 hl h1 h2
+      rw [run_cons]
+      have hop := hl op List.mem_cons_self
+      have h3 : Inv_uuid_now (step s1 op).1 :=
+        step_inv_uuid_now s1 op h2 (by intro v u e; subst e; simp [inSession] at hop)
+      have h4 : (step s1 op).1.isOpen = true := by rw [step_isOpen_of_inSession s1 hop]; exact h1
+      obtain ⟨a, b, c⟩ := ih (step s1 op).1 (fun o ho => hl o (List.mem_cons_of_mem _ ho)) h4 h3
+      exact ⟨a, b, by rw [c, step_flog_of_inSession s1 hop]⟩
+  obtain ⟨a, b, c⟩ := key ops _ hin h hnow
+  have := a b vb o ho
+  rw [this, flogHead, c, openSession_flog]
 
 /-! ### non-vacuity -/
 
@@ -519,9 +692,26 @@ example : (step exOpen (.ev 1 (.doc (exDoc 8)))).2 = [.failstop "snapshot"] :=
     (by decide) (by decide) (by decide) (by decide) (by decide)).1
 
 /-- the branch id of the observers is the failover-log head -/
-example : Inv_uuid exMarked := by
-  have h0 : Inv_uuid exInit := by intro h; cases h
-  exact step_inv_uuid _ _ (step_inv_uuid _ .open h0)
+example : Inv_uuid_now exMarked := by
+  have h0 : Inv_uuid_now exInit := by intro h; cases h
+  exact step_inv_uuid_now _ _ (step_inv_uuid_now _ .open h0 (by intro v u e; cases e)) (by intro v u e; cases e)
+
+/-- … of the last accepted stream request: the ghost form holds in the same state -/
+example : Inv_uuid exMarked (accRun exInit (fun _ => 0) [.open, .ev 0 (.marker 6 10)]) :=
+  show Inv_uuid (run exInit [.open, .ev 0 (.marker 6 10)]) _ from run_inv_uuid exInit _ _ (by intro h; cases h)
+
+/-- **the earlier form is refuted** now that a failover may happen while streaming: after
+    `.setFlog 0 99` on the open stream the observer of vBucket 0 still carries branch 11 -/
+theorem inv_uuid_now_refuted : Inv_uuid_now exOpen ∧ ¬ Inv_uuid_now (step exOpen (.setFlog 0 99)).1 := by
+  refine ⟨step_inv_uuid_now _ .open (by intro h; cases h) (by intro v u e; cases e), ?_⟩
+  intro h
+  have := h (by decide) 0 { uuid := 11, latest := maxU64 } (by decide)
+  revert this; decide
+
+/-- … while the ghost form survives it, and a reopen of the vBucket picks the new head up -/
+example : (step (step exOpen (.setFlog 0 99)).1 (.reopen 0)).2 = [.openreq 0 ⟨11, 5, 5, 5, maxU64⟩] ∧
+    ((step (step exOpen (.setFlog 0 99)).1 (.reopen 0)).1.observers.get? 0).map (·.uuid) = some 99 :=
+  ⟨rfl, by decide⟩
 
 end C06
 end GoDcp
